@@ -530,6 +530,8 @@ class Interp:
 
     def read_target(self, st, target, body):
         kind = target[0]
+        if kind == "value":
+            return target[1]
         if kind == "local":
             _, l, projs = target
             v = self.read_local(st, body, l)
@@ -901,7 +903,24 @@ class Interp:
         sub._fresh = self._fresh + 1000
         s0 = st.copy()
         s0.locals = {}
-        for i, a in enumerate(args):
+        # A closure that only reads its captures: a captured `&local` is resolved to the local's value here, in the
+        # frame the local lives in (inside the callee the index would name another local).
+        writes_caps = any(stt.get("s") == "assign" and stt["pl"]["l"] == 1 and stt["pl"]["p"]
+                          for blk in callee.blocks for stt in blk["stmts"])
+        fixed = []
+        for a in args:
+            if a is not None and a.k == "closure" and a.fields and not writes_caps and self.cur_body is not None:
+                c2 = V("closure", path=a.path)
+                nf = []
+                for fv in a.fields:
+                    if fv is not None and fv.k == "ref" and fv.target and fv.target[0] == "local":
+                        nf.append(V("ref", target=("value", self.read_target(st, fv.target, self.cur_body))))
+                    else:
+                        nf.append(fv)
+                c2.fields = nf
+                a = c2
+            fixed.append(a)
+        for i, a in enumerate(fixed):
             s0.locals[i + 1] = a
         s0.visits = {}
         sub.explore(callee, s0, 0)
@@ -1018,6 +1037,22 @@ class Interp:
                     return [(st, mk_obj("%s(%s, %s)" % (meth, show(xs[0]), show(xs[1])), ity))]
                 if meth in ASCII_CLASSES and len(xs) == 1:
                     return self.in_ranges(st, xs[0].lin, ASCII_CLASSES[meth])
+        # `cond.then(|| v)` / `cond.then_some(v)`: Some(v) when cond, None otherwise
+        if std and name in ("then", "then_some") and len(args) == 2 and (res.endswith("bool::then") or res.endswith("bool::then_some")
+                                                                     or re.search(r"<impl bool>::then(_some)?$", res)):
+            c = self.as_int(st, args[0], "bool")
+            none_v = V("variant", adt="std::option::Option", vidx=0, vname="None", fields={})
+            if c is not None and c.lin is not None:
+                out = []
+                for s2, tr in self.fork_cmp(st, "ge", c.lin, Lin.const(1)):
+                    if not tr:
+                        out.append((s2, none_v))
+                    elif name == "then_some":
+                        out.append((s2, V("variant", adt="std::option::Option", vidx=1, vname="Some", fields={0: args[1]})))
+                    else:
+                        for s3, r in self.apply_fn(s2, args[1], []):
+                            out.append((s3, r if isinstance(r, tuple) else V("variant", adt="std::option::Option", vidx=1, vname="Some", fields={0: r})))
+                return out
         # ranges: `(a..=b).contains(&x)`, `(a..b).contains(&x)` are `a <= x && x <= b` / `a <= x && x < b`
         if std and name == "new" and re.search(r"ops::RangeInclusive::<.*>::new$|ops::range::RangeInclusive::<.*>::new$", res) and len(args) == 2:
             return [(st, V("struct", adt="std::ops::RangeInclusive", fields={"start": args[0], "end": args[1]}))]
